@@ -106,6 +106,25 @@ theorem listEq_refl (l : List Atom) : Atom.listEq l l = true := by
 theorem pyEq_refl (v : Val) : v.pyEq v = true := by
   cases v <;> simp [Val.pyEq, atom_pyEq_refl, listEq_refl]
 
+/-! ### `==` with NaN -/
+
+theorem pyEqN_self {a b : Val} (h : pyEqN a b = true) : pyEqN a a = true := by
+  simp only [pyEqN, Bool.and_eq_true, Bool.not_eq_true'] at h ⊢
+  exact ⟨⟨h.1.1, h.1.1⟩, pyEq_refl a⟩
+
+theorem pyEqN_nan_left (x : Val) : pyEqN nanVal x = false := by
+  simp [pyEqN, isNan]
+
+theorem pyEqN_nan_right (x : Val) : pyEqN x nanVal = false := by
+  simp [pyEqN, isNan]
+
+/-- without NaN the comparison is the shared `Val.pyEq` -/
+theorem pyEqN_eq_pyEq {a b : Val} (ha : isNan a = false) (hb : isNan b = false) : pyEqN a b = a.pyEq b := by
+  simp [pyEqN, ha, hb]
+
+theorem pyEqN_undef_left {v : Val} (h : v.isUndef = false) : pyEqN .undef v = false := by
+  cases v <;> simp_all [pyEqN, Val.pyEq, Val.isUndef]
+
 /-! ### one assignment -/
 
 /-- the `on_every_output` events a block of the given kind has (a CBlock has none) -/
@@ -117,47 +136,47 @@ theorem sendAll_nil (slot : Slot) (n : String) (p v vis : Val) : sendAll slot n 
 
 theorem assign_undef (k : BKind) (c : Cfg) (out v : Val) (h : v.isUndef = true) :
     assign k c out v = .valueError := by
-  cases k <;> simp [assign, setOutput, evalBlock, h]
+  cases k <;> simp [assign, setOutputWith, evalBlockWith, h]
 
-theorem assign_same (k : BKind) (c : Cfg) (out v : Val) (h : v.isUndef = false) (e : out.pyEq v = true) :
+theorem assign_same (k : BKind) (c : Cfg) (out v : Val) (h : v.isUndef = false) (e : pyEqN out v = true) :
     assign k c out v = .ok { out := out, changed := false, enq := false,
                              sends := sendAll .every c.name (everyEvs k c) out v out } := by
   cases k
-  · simp only [assign, setOutput, h, e, everyEvs]
+  · simp only [assign, setOutputWith, h, e, everyEvs]
     cases hc : c.onEvery <;> simp [sendAll_nil]
-  · simp [assign, evalBlock, h, e, everyEvs, sendAll_nil]
+  · simp [assign, evalBlockWith, h, e, everyEvs, sendAll_nil]
 
-theorem assign_changed (k : BKind) (c : Cfg) (out v : Val) (h : v.isUndef = false) (e : out.pyEq v = false) :
+theorem assign_changed (k : BKind) (c : Cfg) (out v : Val) (h : v.isUndef = false) (e : pyEqN out v = false) :
     assign k c out v = .ok { out := v, changed := true, enq := decide (k = .sblock),
                              sends := sendAll .output c.name c.onOutput out v v
                                       ++ sendAll .every c.name (everyEvs k c) out v v } := by
-  cases k <;> simp [assign, setOutput, evalBlock, h, e, everyEvs, sendAll_nil]
+  cases k <;> simp [assign, setOutputWith, evalBlockWith, h, e, everyEvs, sendAll_nil]
 
 /-- the three cases of an assignment -/
 theorem assign_cases (k : BKind) (c : Cfg) (out v : Val) :
     (v.isUndef = true ∧ assign k c out v = .valueError) ∨
-    (v.isUndef = false ∧ out.pyEq v = true ∧
+    (v.isUndef = false ∧ pyEqN out v = true ∧
       assign k c out v = .ok { out := out, changed := false, enq := false,
                                sends := sendAll .every c.name (everyEvs k c) out v out }) ∨
-    (v.isUndef = false ∧ out.pyEq v = false ∧
+    (v.isUndef = false ∧ pyEqN out v = false ∧
       assign k c out v = .ok { out := v, changed := true, enq := decide (k = .sblock),
                                sends := sendAll .output c.name c.onOutput out v v
                                         ++ sendAll .every c.name (everyEvs k c) out v v }) := by
   cases h : v.isUndef
-  · cases e : out.pyEq v
+  · cases e : pyEqN out v
     · exact .inr (.inr ⟨rfl, rfl, assign_changed k c out v h e⟩)
     · exact .inr (.inl ⟨rfl, rfl, assign_same k c out v h e⟩)
   · exact .inl ⟨rfl, assign_undef k c out v h⟩
 
 /-- the stored output after one assignment: an equal (or refused) value keeps the stored object -/
 theorem after_eq (k : BKind) (c : Cfg) (out v : Val) :
-    (Rec.mk out v (assign k c out v)).after = if v.isUndef || out.pyEq v then out else v := by
+    (Rec.mk out v (assign k c out v)).after = if v.isUndef || pyEqN out v then out else v := by
   rcases assign_cases k c out v with ⟨h, e⟩ | ⟨h, e, a⟩ | ⟨h, e, a⟩ <;> simp [Rec.after, *]
 
 /-- the sends of one assignment that belong to the on_output event number `i` -/
 theorem rec_sends_output (k : BKind) (c : Cfg) (out v : Val) (i : Nat) (hi : i < c.onOutput.length) :
     (Rec.mk out v (assign k c out v)).sends.filter (fun s => s.slot == .output && s.idx == i) =
-      if v.isUndef || out.pyEq v then [] else [c.onOutput[i].send .output i c.name (kwargs out v) v] := by
+      if v.isUndef || pyEqN out v then [] else [c.onOutput[i].send .output i c.name (kwargs out v) v] := by
   rcases assign_cases k c out v with ⟨h, a⟩ | ⟨h, e, a⟩ | ⟨h, e, a⟩
   · simp [Rec.sends, a, h]
   · simp only [Rec.sends, a, h, e]
@@ -198,7 +217,7 @@ theorem send_pv (e : Ev) (slot : Slot) (i : Nat) (n : String) (p v vis : Val) :
 /-- reference: the successive changes of a history of assignments -/
 def changes (out : Val) : List Val → List (Val × Val)
   | [] => []
-  | v :: vs => if v.isUndef || out.pyEq v then changes out vs else (out, v) :: changes v vs
+  | v :: vs => if v.isUndef || pyEqN out v then changes out vs else (out, v) :: changes v vs
 
 /-- each change starts from the value the previous one ended with -/
 def Linked : Val → List (Val × Val) → Prop
@@ -233,22 +252,21 @@ theorem sendsOf_output_changes (k : BKind) (c : Cfg) (out : Val) (vs : List Val)
     rw [run_cons, sendsOf_cons, rec_sends_output k c out v i hi, List.map_append, ih, after_eq, changes]
     split <;> simp [send_pv]
 
+/-- an accepted assignment whose output before and after compare unequal -/
+def Rec.isChange (r : Rec) : Bool := !r.value.isUndef && !(pyEqN r.before r.after)
+
 theorem run_changes (k : BKind) (c : Cfg) (out : Val) (vs : List Val) :
-    ((run k c out vs).filter fun r => !(r.before.pyEq r.after)).map (fun r => (r.before, r.after))
-      = changes out vs := by
+    ((run k c out vs).filter Rec.isChange).map (fun r => (r.before, r.after)) = changes out vs := by
   induction vs generalizing out with
   | nil => rfl
   | cons v vs ih =>
     rw [run_cons, List.filter_cons, changes]
-    simp only [after_eq]
-    split
-    · next h => simp [pyEq_refl, ih]
-    · next h =>
-      have h' : out.pyEq v = false := by
-        cases e : out.pyEq v <;> simp_all
-      have hu : v.isUndef = false := by
-        cases e : v.isUndef <;> simp_all
-      simp [h', hu, ih, after_eq]
+    simp only [Rec.isChange, after_eq]
+    cases hu : v.isUndef
+    · cases he : pyEqN out v
+      · simp [hu, he, ih, after_eq]
+      · simp [hu, he, pyEqN_self he, ih, after_eq]
+    · simp [hu, ih, after_eq]
 
 theorem sendsOf_every_all (k : BKind) (c : Cfg) (out : Val) (vs : List Val) (i : Nat)
     (hi : i < (everyEvs k c).length) :
@@ -269,6 +287,18 @@ theorem sendsOf_output_results (k : BKind) (c : Cfg) (out : Val) (vs : List Val)
   | cons v vs ih =>
     rw [run_cons, sendsOf_cons, rec_sends_output k c out v i hi, List.map_append, ih, after_eq, changes]
     split <;> simp [Ev.send, kwargs_set_source, hf, runFilters]
+
+theorem changes_replicate_nan (out : Val) (n : Nat) :
+    (changes out (List.replicate n nanVal)).length = n := by
+  induction n generalizing out with
+  | zero => rfl
+  | succ n ih =>
+    have hu : nanVal.isUndef = false := rfl
+    simp [List.replicate_succ, changes, hu, pyEqN_nan_right, ih]
+
+theorem changes_from_undef (v : Val) (vs : List Val) (h : v.isUndef = false) :
+    changes .undef (v :: vs) = (.undef, v) :: changes v vs := by
+  simp [changes, h, pyEqN_undef_left h]
 
 /-! ### every record of a history is one assignment -/
 
@@ -318,7 +348,7 @@ theorem mem_sends (k : BKind) (c : Cfg) (o v : Val) (s : Sent)
     (h : s ∈ (Rec.mk o v (assign k c o v)).sends) :
     v.isUndef = false ∧ s.raw = rawData c.name o v ∧ s.visible = (Rec.mk o v (assign k c o v)).after ∧
     s.result = runFilters s.ev.filters s.raw ∧
-    ((s.slot = .output ∧ c.onOutput[s.idx]? = some s.ev ∧ o.pyEq v = false) ∨
+    ((s.slot = .output ∧ c.onOutput[s.idx]? = some s.ev ∧ pyEqN o v = false) ∨
      (s.slot = .every ∧ (everyEvs k c)[s.idx]? = some s.ev)) := by
   rcases assign_cases k c o v with ⟨hu, a⟩ | ⟨hu, e, a⟩ | ⟨hu, e, a⟩
   · simp [Rec.sends, a] at h
@@ -343,8 +373,8 @@ theorem sends_order (k : BKind) (c : Cfg) (o v : Val) (st : Step) (h : assign k 
   · rw [a] at h; cases h; simp [sendAll, sendFrom_map_ev]
 
 theorem step_flags (k : BKind) (c : Cfg) (o v : Val) (st : Step) (h : assign k c o v = .ok st) :
-    v.isUndef = false ∧ st.changed = !(o.pyEq v) ∧ st.enq = (decide (k = .sblock) && st.changed) ∧
-    st.out = (if o.pyEq v then o else v) := by
+    v.isUndef = false ∧ st.changed = !(pyEqN o v) ∧ st.enq = (decide (k = .sblock) && st.changed) ∧
+    st.out = (if pyEqN o v then o else v) := by
   rcases assign_cases k c o v with ⟨hu, a⟩ | ⟨hu, e, a⟩ | ⟨hu, e, a⟩
   · rw [a] at h; cases h
   · rw [a] at h; cases h; simp [hu, e]
